@@ -275,6 +275,10 @@ def _elapsed():
   return st.one_of(
       st.sampled_from([0.0, 0.0, 1.0, 1.5, 0.5, 1e-6, 0.999999, 2.25, 3600.0,
                        86400.5]),
+      # fractions that round up to a whole second at nanosecond resolution
+      st.tuples(st.integers(0, 3600), st.sampled_from(
+          [0.9999999996, 0.99999999951, 0.9999999999, 0.99999999999])).map(
+              lambda t: t[0] + t[1]),
       st.integers(0, 10 ** 9).map(float),
       st.tuples(st.integers(0, 10 ** 7), us).map(
           lambda t: t[0] + t[1] / 1e6),
